@@ -14,6 +14,27 @@ pub fn first_line_leading_spaces(s: &str) -> usize {
     0
 }
 
+/// True if `s` can be written as a block scalar (`|` or `>`) and read back unchanged.
+///
+/// Block scalars have no escapes, so control characters and the Unicode line breaks cannot
+/// be carried; lines made of white space only are taken for empty lines by parsers, and a
+/// scalar without any content line cannot express its line breaks reliably.
+pub fn fits_block_scalar(s: &str) -> bool {
+    let content = s.trim_end_matches('\n');
+    if content.is_empty() || content.starts_with('\n') {
+        return false;
+    }
+    if s.chars().any(|c| {
+        (c.is_control() && c != '\n' && c != '\t')
+            || matches!(c, '\u{2028}' | '\u{2029}' | '\u{FEFF}')
+    }) {
+        return false;
+    }
+    !content
+        .split('\n')
+        .any(|line| !line.is_empty() && line.chars().all(|c| c == ' ' || c == '\t'))
+}
+
 /// Write a folded block string body, wrapping to `folded_wrap_col` characters.
 /// Preserves blank lines between paragraphs. Each emitted line is indented
 /// exactly at `indent` depth.
